@@ -424,15 +424,14 @@ package semver
 // equal ends with an open flag give the empty span.
 //@ func newSpan
 //@   requires min != nil && max != nil
-//@   abstract (*Version).Canon
 //@   ensures imp(result1 == nil, result0.rank == empty || result0.rank == unit || result0.rank == vector)
 //@   ensures imp(result1 == nil && result0.rank == unit, !result0.minOpen && !result0.maxOpen && result0.min == result0.max &&
 //@           result0.min != nil && compare(result0.min, max) == 0 && !minOpen && !maxOpen)
 //@   ensures imp(result1 == nil && result0.rank == vector, result0.minOpen == minOpen && result0.maxOpen == maxOpen &&
 //@           result0.min != nil && result0.max == max && compare(result0.min, result0.max) < 0)
 //@   ensures imp(result1 == nil && result0.rank == empty, (minOpen || maxOpen))
-//@   ensures imp(old(noMarker(min, wildcard)) && old(noMarker(max, wildcard)) && result1 == nil, touches(&min.build, &max.build))
-//@   ensures imp(old(noMarker(min, wildcard)) && old(noMarker(max, wildcard)) && result1 == nil, compare(min, max) <= 0)
+//@   ensures imp(old(noMarker(min, wildcard)) && old(noMarker(max, wildcard)), touches(&min.build, &max.build))
+//@   ensures imp(old(noMarker(min, wildcard)) && old(noMarker(max, wildcard)), iff(result1 == nil, compare(min, max) <= 0))
 //@   ensures imp(old(noMarker(min, wildcard)) && old(noMarker(max, wildcard)) && result1 == nil,
 //@           result0.rank == ite(compare(min, max) < 0, vector, ite(minOpen || maxOpen, empty, unit)) &&
 //@           imp(result0.rank != empty, result0.min == min))
@@ -628,6 +627,13 @@ package semver
 //@               touches() && n == len(v.num) && 0 <= i && (i >= n || v.num[i] == marker))
 //@   property C03
 
+// Canon builds a string; it is assumed (not verified: interface dispatch into the
+// extensions' printers, fmt.Fprint into a local builder) to leave everything that
+// existed before the call as it was. Used on newSpan's error path only.
+//@ func (*Version).Canon
+//@   trusted
+//@   ensures touches()
+
 // all: every number equals val.
 //@ func (*Version).all
 //@   requires v != nil
@@ -670,23 +676,23 @@ package semver
 //@   prune
 //@   abstract (*Version).rebuildExtension
 //@   uses compare.plain.nums3 compare.plain.laws
-//@   ensures imp((typ == tokEmpty || typ == tokEqual) && result1 == nil,
-//@           result0.rank == unit && nums3(result0.min, old(lo.num[0]), old(lo.num[1]), old(lo.num[2])) && len(result0.min.pre) == 0)
-//@   ensures imp(typ == tokGreater && result1 == nil, result0.rank == vector && bounds(result0, false, false) &&
+//@   ensures imp((typ == tokEmpty || typ == tokEqual),
+//@           result1 == nil && result0.rank == unit && nums3(result0.min, old(lo.num[0]), old(lo.num[1]), old(lo.num[2])) && len(result0.min.pre) == 0)
+//@   ensures imp(typ == tokGreater, result1 == nil && result0.rank == vector && bounds(result0, false, false) &&
 //@           nums3(result0.min, old(lo.num[0]), old(lo.num[1]), old(lo.num[2]) + 1) && len(result0.min.pre) == 0 && nums3(result0.max, infinity, infinity, infinity))
-//@   ensures imp(typ == tokGreaterEqual && result1 == nil, result0.rank == vector && bounds(result0, false, false) &&
+//@   ensures imp(typ == tokGreaterEqual, result1 == nil && result0.rank == vector && bounds(result0, false, false) &&
 //@           nums3(result0.min, old(lo.num[0]), old(lo.num[1]), old(lo.num[2])) && len(result0.min.pre) == 0 && nums3(result0.max, infinity, infinity, infinity))
-//@   ensures imp(typ == tokLess && !(old(lo.num[0]) == 0 && old(lo.num[1]) == 0 && old(lo.num[2]) == 0) && result1 == nil, result0.rank == vector && bounds(result0, false, true) &&
+//@   ensures imp(typ == tokLess && !(old(lo.num[0]) == 0 && old(lo.num[1]) == 0 && old(lo.num[2]) == 0), result1 == nil && result0.rank == vector && bounds(result0, false, true) &&
 //@           nums3(result0.min, 0, 0, 0) && len(result0.min.pre) == 1 && nums3(result0.max, old(lo.num[0]), old(lo.num[1]), old(lo.num[2])) && len(result0.max.pre) == 0)
-//@   ensures imp(typ == tokLessEqual && result1 == nil, result0.rank == vector && bounds(result0, false, false) &&
+//@   ensures imp(typ == tokLessEqual, result1 == nil && result0.rank == vector && bounds(result0, false, false) &&
 //@           nums3(result0.min, 0, 0, 0) && len(result0.min.pre) == 1 && nums3(result0.max, old(lo.num[0]), old(lo.num[1]), old(lo.num[2])) && len(result0.max.pre) == 0)
-//@   ensures imp(typ == tokCaret && old(lo.num[0]) > 0 && result1 == nil, result0.rank == vector && bounds(result0, false, false) &&
+//@   ensures imp(typ == tokCaret && old(lo.num[0]) > 0, result1 == nil && result0.rank == vector && bounds(result0, false, false) &&
 //@           nums3(result0.min, old(lo.num[0]), old(lo.num[1]), old(lo.num[2])) && len(result0.min.pre) == 0 && nums3(result0.max, old(lo.num[0]), infinity, infinity))
-//@   ensures imp(typ == tokCaret && old(lo.num[0]) == 0 && old(lo.num[1]) > 0 && result1 == nil, result0.rank == vector && bounds(result0, false, false) &&
+//@   ensures imp(typ == tokCaret && old(lo.num[0]) == 0 && old(lo.num[1]) > 0, result1 == nil && result0.rank == vector && bounds(result0, false, false) &&
 //@           nums3(result0.min, 0, old(lo.num[1]), old(lo.num[2])) && len(result0.min.pre) == 0 && nums3(result0.max, 0, old(lo.num[1]), infinity))
-//@   ensures imp(typ == tokCaret && old(lo.num[0]) == 0 && old(lo.num[1]) == 0 && result1 == nil, result0.rank == unit &&
+//@   ensures imp(typ == tokCaret && old(lo.num[0]) == 0 && old(lo.num[1]) == 0, result1 == nil && result0.rank == unit &&
 //@           nums3(result0.min, 0, 0, old(lo.num[2])) && len(result0.min.pre) == 0 && nums3(result0.max, 0, 0, old(lo.num[2])) && len(result0.max.pre) == 0)
-//@   ensures imp(typ == tokTilde && result1 == nil, result0.rank == vector && bounds(result0, false, false) &&
+//@   ensures imp(typ == tokTilde, result1 == nil && result0.rank == vector && bounds(result0, false, false) &&
 //@           nums3(result0.min, old(lo.num[0]), old(lo.num[1]), old(lo.num[2])) && len(result0.min.pre) == 0 && nums3(result0.max, old(lo.num[0]), old(lo.num[1]), infinity))
 //@   loop 0
 //@     invariant loopframe(hi.num) && forall(k, 0, rangeidx + 1, hi.num[k] == infinity)
